@@ -3,6 +3,7 @@
   Property theorems only; helper lemmas live in Ps3/Proof/IPRange.lean.
 -/
 import Ps3.Proof.IPRange
+import Ps3.Proof.IPBlock
 namespace Ps3.Props.C14
 open Ps3 Ps3.IPRange Ps3.Spec.IPRange
 
@@ -49,6 +50,87 @@ theorem bad_bound_rejected (s : Bytes) (i : Nat)
   · rcases h with h | h
     · simp [h]
     · cases hh : parseIP (s.take i) <;> simp [h]
+
+/-! ### CIDR and netmask blocks denote exactly the documented set -/
+
+/-- The numeric interval the code computes for an address and a prefix length **is** the documented
+    block: the aligned 2^h addresses around the address (host bits of the base address ignored),
+    without network and broadcast address when the block has more than two addresses (h ≥ 2), with
+    both when h ≤ 1 — for IPv4 (32 bits) and IPv6 (128 bits), every address, every prefix length. -/
+theorem block_denotes (addr : Bytes) (p : Nat) (hL : addr.length = 4 ∨ addr.length = 16) (hp : p ≤ 8 * addr.length)
+    (x : Nat) :
+    (fromBE (blockRange addr (cidrMask addr.length p) p).left ≤ x ∧
+      x ≤ fromBE (blockRange addr (cidrMask addr.length p) p).right) ↔
+      block (fromBE addr) (8 * addr.length - p) x :=
+  Proof.IPBlock.blockRange_spec addr p hL hp x
+
+/-- "a.b.c.d/p" is accepted for every p ≤ 32 and stored as that block in IPv4-mapped form … -/
+theorem cidr_v4_parsed (s : Bytes) (i : Nat) (addr a4 : Bytes) (p : Nat)
+    (hsep : (i == s.length - 1) = false)
+    (haddr : parseIP (s.take i) = some addr) (h4 : to4 addr = some a4) (ha4 : a4.length = 4)
+    (hnoip : parseIP (s.drop (i + 1)) = none) (hp : atoi (s.drop (i + 1)) = some (p : Int)) (hp32 : p ≤ 32) :
+    parseCIDRorMask s i = some ⟨v4InV6Prefix ++ (blockRange a4 (cidrMask 4 p) p).left,
+                                v4InV6Prefix ++ (blockRange a4 (cidrMask 4 p) p).right⟩ :=
+  Proof.IPBlock.parse_cidr_v4 s i addr a4 p hsep haddr h4 ha4 hnoip hp hp32
+
+/-- … a contiguous netmask with `ones` leading one bits yields exactly the same block as "/ones" … -/
+theorem mask_v4_parsed (s : Bytes) (i : Nat) (addr a4 m m4 : Bytes) (ones : Nat)
+    (hsep : (i == s.length - 1) = false)
+    (haddr : parseIP (s.take i) = some addr) (h4 : to4 addr = some a4) (ha4 : a4.length = 4)
+    (hm : parseIP (s.drop (i + 1)) = some m) (hm4 : to4 m = some m4) (hml : m4.length = 4)
+    (hones : simpleMaskLength m4 = some ones) :
+    parseCIDRorMask s i = some ⟨v4InV6Prefix ++ (blockRange a4 (cidrMask 4 ones) ones).left,
+                                v4InV6Prefix ++ (blockRange a4 (cidrMask 4 ones) ones).right⟩ :=
+  Proof.IPBlock.parse_mask_v4 s i addr a4 m m4 ones hsep haddr h4 ha4 hm hm4 hml hones
+
+/-- … and membership in it, for any 16-byte address, is membership of the corresponding IPv4
+    address in the documented block (no IPv6 address outside ::ffff:0:0/96 is ever a member). -/
+theorem cidr_v4_membership (a4 : Bytes) (p : Nat) (h4 : a4.length = 4) (hp : p ≤ 32) (ip : Bytes) (hip : ip.length = 16) :
+    contains ⟨v4InV6Prefix ++ (blockRange a4 (cidrMask 4 p) p).left, v4InV6Prefix ++ (blockRange a4 (cidrMask 4 p) p).right⟩ ip = true ↔
+      ∃ y, addrNat ip = v4Base + y ∧ block (fromBE a4) (32 - p) y :=
+  Proof.IPBlock.contains_block_v4 a4 p h4 hp ip hip
+
+/-- IPv6 "addr/p" -/
+theorem cidr_v6_parsed (s : Bytes) (i : Nat) (addr : Bytes) (p : Nat)
+    (hsep : (i == s.length - 1) = false)
+    (haddr : parseIP (s.take i) = some addr) (h4 : to4 addr = none) (h16 : addr.length = 16)
+    (hnoip : parseIP (s.drop (i + 1)) = none) (hp : atoi (s.drop (i + 1)) = some (p : Int)) (hp128 : p ≤ 128) :
+    parseCIDRorMask s i = some (blockRange addr (cidrMask 16 p) p) :=
+  Proof.IPBlock.parse_cidr_v6 s i addr p hsep haddr h4 h16 hnoip hp hp128
+
+theorem cidr_v6_membership (addr : Bytes) (p : Nat) (h16 : addr.length = 16) (hp : p ≤ 128) (ip : Bytes) (hip : ip.length = 16) :
+    contains (blockRange addr (cidrMask 16 p) p) ip = true ↔ block (fromBE addr) (128 - p) (addrNat ip) :=
+  Proof.IPBlock.contains_block_v6 addr p h16 hp ip hip
+
+/-- a contiguous mask is the prefix mask of its length (so the two notations cannot disagree) -/
+theorem contiguous_mask_is_prefix (m : Bytes) (ones : Nat) (h : simpleMaskLength m = some ones) :
+    m = cidrMask m.length ones ∧ ones ≤ 8 * m.length :=
+  Proof.IPBlock.simpleMaskLength_spec m ones h
+
+/-- Out-of-range prefix lengths, non-contiguous masks and tails that are neither are rejected. -/
+theorem bad_prefix_rejected (s : Bytes) (i : Nat) (addr : Bytes) (p : Int)
+    (haddr : parseIP (s.take i) = some addr)
+    (hnoip : parseIP (s.drop (i + 1)) = none) (hp : atoi (s.drop (i + 1)) = some p)
+    (hbad : p < 0 ∨ p > 8 * (((match to4 addr with | some a => a | none => addr).length : Nat) : Int)) :
+    parseCIDRorMask s i = none :=
+  Proof.IPBlock.bad_prefix_rejected s i addr p haddr hnoip hp hbad
+
+theorem bad_mask_rejected (s : Bytes) (i : Nat) (addr m m4 : Bytes)
+    (haddr : parseIP (s.take i) = some addr)
+    (hm : parseIP (s.drop (i + 1)) = some m) (hm4 : to4 m = some m4) (hnone : simpleMaskLength m4 = none) :
+    parseCIDRorMask s i = none :=
+  Proof.IPBlock.bad_mask_rejected s i addr m m4 haddr hm hm4 hnone
+
+theorem bad_tail_rejected (s : Bytes) (i : Nat)
+    (hnoip : parseIP (s.drop (i + 1)) = none) (hp : atoi (s.drop (i + 1)) = none) :
+    parseCIDRorMask s i = none :=
+  Proof.IPBlock.bad_tail_rejected s i hnoip hp
+
+/-- non-vacuity: 192.0.2.77/24 is [192.0.2.1, 192.0.2.254]; /31 keeps both addresses -/
+example : block (192 * 2 ^ 24 + 2 * 2 ^ 8 + 77) 8 (192 * 2 ^ 24 + 2 * 2 ^ 8 + 1) ∧
+          ¬ block (192 * 2 ^ 24 + 2 * 2 ^ 8 + 77) 8 (192 * 2 ^ 24 + 2 * 2 ^ 8 + 255) ∧
+          block 10 1 11 ∧ block 10 1 10 := by
+  simp [block]
 
 /-- "192.0.2.10-192.0.2.0" -/
 example : parseIPRange [49, 57, 50, 46, 48, 46, 50, 46, 49, 48, 45, 49, 57, 50, 46, 48, 46, 50, 46, 48] = none := by decide
